@@ -63,8 +63,11 @@ UnitFactor(u) == CASE u = "m" -> "UF_M" [] u = "ft" -> "UF_FT" [] u = "us-ft" ->
 (* the spheroid's name: an unknown one, or one of the names the parser recognises - the figures that follow it are what
    counts either way (a .prj file may carry a well-known name with its own, e.g. rounded, figures) *)
 SphName(c) == CASE c.ord = 2 -> "GRS_1980" [] c.ord = 3 -> "WGS_1984" [] OTHER -> "verif_spheroid"
+(* the datum's name: an unknown one, or one that begins like a registered name without being it (WGS 72 is not WGS 84): the
+   spheroid figures and the TOWGS84 clause of the text are what counts *)
+DatumName(c) == IF c.ord = 3 THEN "D_WGS_1972" ELSE "D_verif"
 GeogCS(c) == Sec("GEOGCS", <<Q("GCS_verif"),
-                 Sec("DATUM", <<Q("D_verif"), Sec("SPHEROID", <<Q(SphName(c)), V("A"), V("RF")>>)>>
+                 Sec("DATUM", <<Q(DatumName(c)), Sec("SPHEROID", <<Q(SphName(c)), V("A"), V("RF")>>)>>
                               \o (IF c.tw = 0 THEN <<>> ELSE <<Sec("TOWGS84", <<V(IF c.tw = 3 THEN "TW3" ELSE "TW7")>>)>>)),
                  Sec("PRIMEM", <<Q("Greenwich"), V("ZERO")>>),
                  Sec("UNIT", <<Q("Degree"), V("DEG")>>)>>)
